@@ -114,6 +114,10 @@ impl ChannelParser {
             if first == "tauri" {
                 return true;
             }
+            // `use tauri::ipc;` followed by `ipc::Channel<T>`
+            if first == "ipc" && all_segments.len() == 2 {
+                return true;
+            }
         }
 
         false
